@@ -542,6 +542,28 @@ pub fn check_request(ctx: &mut Ctx, rng: &mut Rng, corpus: &Corpus, nodes: &[Nod
         }
     }
 
+    // model: the Lean normalisation of range requests (extend_validate_ranges) = the cut points the
+    // harness evaluates with (which are compared with the real buckets' from / to / key)
+    fn range_nodes<'a>(nodes: &'a [Node], out: &mut Vec<&'a Node>) { for n in nodes { if matches!(n.agg, Agg::Range { .. }) { out.push(n); } range_nodes(&n.subs, out); } }
+    let mut rnodes = vec![];
+    range_nodes(nodes, &mut rnodes);
+    for n in rnodes {
+        if let Agg::Range { field, ranges } = &n.agg {
+            let o = |x: Option<i64>| x.map(|v| v.to_string()).unwrap_or("_".into());
+            let enc: Vec<String> = ranges.iter().map(|(a, b, _)| {
+                let a = match a { Some(a) if *field == Fd::U && *a <= 0 => None, x => *x };
+                format!("{}:{}", o(a), o(*b))
+            }).collect();
+            let m = ctx.model.ask(&format!("C14 normranges {}", enc.join(";")));
+            let cuts = range_cuts(*field, ranges);
+            let mine = if cuts.is_empty() { "-".to_string() } else { cuts.iter().map(|c| c.to_string()).collect::<Vec<_>>().join(",") };
+            ctx.report.count("model:range-normalisation-compared");
+            if m != mine {
+                ctx.report.violation("model", "C14:lean-range-normalisation-differs", format!("lean {m} vs harness {mine}"), case_json(&c_in(&corpus.docs, nodes, q), &[], "spec"));
+            }
+        }
+    }
+
     // model: the Lean extended_stats accumulator (Welford + Chan over exact rationals, sigma carried
     // in the fruit) on the values of every segment = the exact count / Σv / Σv² / M2 and the request's sigma
     for (n, sr) in nodes.iter().zip(srs.iter()) {
@@ -1038,6 +1060,7 @@ pub fn run(ctx: &mut Ctx) {
         "Lean merge model (collectSeg / mergeFruits / finalize) = real keys, counts, sum_other_doc_count, doc_count_error_upper_bound".into(),
         "final result identical for every segmentation, for separate indexes merged in random schedules and through postcard".into(),
         "bucket / memory limits: Err or the complete result; Lean guard model agrees".into(),
+        "Lean normRanges (extend_validate_ranges: sort, extend, reject overlaps, fill holes) = the cut points whose buckets are compared with the real from / to / key".into(),
         "Lean extended_stats accumulator (Welford + Chan over Rat, sigma in the fruit) = exact count, sum, sum of squares, M2 and the request's sigma (the real f64 result is compared with the same exact values)".into(),
     ];
     std::panic::set_hook(Box::new(|info| {
